@@ -1,4 +1,291 @@
-use crate::core::{Ctx, Outcome};
-use serde_json::Value;
-pub fn run(_ctx: &Ctx) -> Outcome { unimplemented!() }
-pub fn replay(_ctx: &Ctx, _r: &Value) -> i32 { 2 }
+//! C07 — every peer-wire message round-trips through its BEP3 byte layout.
+//! E-ENUM over boundary field alphabets per message kind and over all short bit vectors, against the
+//! reference codec in refwire.rs.
+
+use crate::core::{self, Ctx, Outcome};
+use crate::refwire::{self, Msg};
+use rdest::verif::*;
+use serde_json::{json, Value};
+use std::io::Cursor;
+
+pub const B: [u32; 14] = [
+    0, 1, 2, 255, 256, 16383, 16384, 16385, 65535, 65536, 0x7fff_ffff, 0x8000_0000, 0xffff_fffe, 0xffff_ffff,
+];
+const PAYLOADS: [usize; 9] = [0, 1, 2, 16383, 16384, 16385, 65526, 65527, 65528];
+
+fn patterns20() -> Vec<[u8; 20]> {
+    let mut v = vec![[0u8; 20], [0xffu8; 20], [b'T'; 20], [19u8; 20]];
+    let mut seq = [0u8; 20];
+    for (i, b) in seq.iter_mut().enumerate() {
+        *b = i as u8;
+    }
+    v.push(seq);
+    let mut t = [b'a'; 20];
+    t[3] = b'T';
+    t[4] = 0x54;
+    v.push(t);
+    v
+}
+
+fn payload(n: usize) -> Vec<u8> {
+    (0..n).map(|i| (i % 251) as u8 ^ (i / 251) as u8).collect()
+}
+
+/// Bytes the real implementation emits for the message.
+fn real_bytes(m: &Msg) -> Vec<u8> {
+    match m {
+        Msg::Handshake { info_hash, peer_id, .. } => Handshake::new(info_hash, peer_id).data(),
+        Msg::KeepAlive => KeepAlive::new().data(),
+        Msg::Choke => Choke::new().data(),
+        Msg::Unchoke => Unchoke::new().data(),
+        Msg::Interested => Interested::new().data(),
+        Msg::NotInterested => NotInterested::new().data(),
+        Msg::Have(i) => Have::new(*i as usize).data(),
+        Msg::Bitfield(_) => unreachable!("bitfields are built from bit vectors"),
+        Msg::Request(i, b, l) => Request::new(*i as usize, *b as usize, *l as usize).data(),
+        Msg::Piece(i, b, d) => Piece::new(*i as usize, *b as usize, d.clone()).data(),
+        Msg::Cancel(i, b, l) => Cancel::new(*i as usize, *b as usize, *l as usize).data(),
+    }
+}
+
+fn frame_bytes(f: &Frame) -> Vec<u8> {
+    match f {
+        Frame::Handshake(m) => m.data(),
+        Frame::KeepAlive(m) => m.data(),
+        Frame::Choke(m) => m.data(),
+        Frame::Unchoke(m) => m.data(),
+        Frame::Interested(m) => m.data(),
+        Frame::NotInterested(m) => m.data(),
+        Frame::Have(m) => m.data(),
+        Frame::Bitfield(m) => m.data(),
+        Frame::Request(m) => m.data(),
+        Frame::Piece(m) => m.data(),
+        Frame::Cancel(m) => m.data(),
+    }
+}
+
+/// Does the decoded frame carry exactly the fields of `m` (through its public accessors)?
+fn frame_matches(f: &Frame, m: &Msg) -> bool {
+    match (f, m) {
+        (Frame::Handshake(h), Msg::Handshake { peer_id, .. }) => h.peer_id() == peer_id,
+        (Frame::KeepAlive(_), Msg::KeepAlive) => true,
+        (Frame::Choke(_), Msg::Choke) => true,
+        (Frame::Unchoke(_), Msg::Unchoke) => true,
+        (Frame::Interested(_), Msg::Interested) => true,
+        (Frame::NotInterested(_), Msg::NotInterested) => true,
+        (Frame::Have(h), Msg::Have(i)) => h.piece_index() == *i as usize,
+        (Frame::Bitfield(_), Msg::Bitfield(_)) => true,
+        (Frame::Request(r), Msg::Request(i, b, l)) => {
+            r.piece_index() == *i as usize && r.block_begin() == *b as usize && r.block_length() == *l as usize
+        }
+        (Frame::Piece(p), Msg::Piece(i, b, d)) => {
+            p.piece_index() == *i as usize && p.block_begin() == *b as usize && p.block() == d && p.block_length() == d.len()
+        }
+        (Frame::Cancel(_), Msg::Cancel(..)) => true,
+        _ => false,
+    }
+}
+
+const JUNK: [&[u8]; 3] = [b"\x00", b"\x00\x00\x00\x01\x00", b"\xff\xff\xff\xff\xff\xff\xff"];
+
+/// Check one message given the bytes the implementation emitted for it.
+pub fn check_bytes(m: &Msg, got: &[u8]) -> Option<(&'static str, String)> {
+    let want = refwire::encode(m);
+    if got != want.as_slice() {
+        return Some((
+            "encoding-differs-from-bep3",
+            format!("{}: emitted {} expected {}", m.short(), core::show(&got[..got.len().min(40)]), core::show(&want[..want.len().min(40)])),
+        ));
+    }
+    let oversized = want.len() > 4 + refwire::MAX_FRAME && !matches!(m, Msg::Handshake { .. });
+    for junk in std::iter::once(&b""[..]).chain(JUNK.iter().copied()) {
+        let mut buf = want.clone();
+        buf.extend_from_slice(junk);
+        let parsed = core::catch(|| {
+            let mut crs = Cursor::new(&buf[..]);
+            let r = Frame::parse(&mut crs);
+            (r, crs.position() as usize)
+        });
+        match parsed {
+            Err(p) => return Some(("parse-panic", format!("{} + {} junk bytes: {}", m.short(), junk.len(), p))),
+            Ok((Ok(frame), pos)) => {
+                if oversized {
+                    return Some(("oversized-frame-accepted", format!("{} accepted", m.short())));
+                }
+                if pos != want.len() {
+                    return Some((
+                        "consumed-length-wrong",
+                        format!("{} + {} junk bytes: consumed {} of {}", m.short(), junk.len(), pos, want.len()),
+                    ));
+                }
+                if !frame_matches(&frame, m) {
+                    return Some(("decoded-fields-differ", format!("{} decoded as {:?}", m.short(), frame)));
+                }
+                let re = frame_bytes(&frame);
+                if re != want {
+                    return Some((
+                        "reserialisation-differs",
+                        format!("{} re-serialised to {}", m.short(), core::show(&re[..re.len().min(40)])),
+                    ));
+                }
+            }
+            Ok((Err(e), _)) => {
+                if !oversized {
+                    return Some(("valid-message-rejected", format!("{} + {} junk bytes: {:?}", m.short(), junk.len(), e)));
+                }
+            }
+        }
+    }
+    None
+}
+
+pub fn check_msg(m: &Msg) -> Option<(&'static str, String)> {
+    match core::catch(|| real_bytes(m)) {
+        Ok(b) => check_bytes(m, &b),
+        Err(p) => Some(("serializer-panic", format!("{}: {}", m.short(), p))),
+    }
+}
+
+pub fn check_bits(bits: &Vec<bool>) -> Option<(&'static str, String)> {
+    let m = Msg::Bitfield(refwire::bitfield_bytes(bits));
+    let bf = match core::catch(|| Bitfield::from_vec(bits)) {
+        Ok(b) => b,
+        Err(p) => return Some(("bitfield-panic", format!("from_vec({:?}): {}", bits, p))),
+    };
+    if let Some(v) = check_bytes(&m, &bf.data()) {
+        return Some(v);
+    }
+    // decode direction: bytes -> bits for this piece count
+    let want = refwire::encode(&m);
+    let mut crs = Cursor::new(&want[..]);
+    match Frame::parse(&mut crs) {
+        Ok(Frame::Bitfield(b)) => match core::catch(|| b.to_vec(bits.len())) {
+            Ok(Ok(v)) if &v == bits => {
+                if b.validate(bits.len()).is_err() {
+                    return Some(("bitfield-validate-rejects", format!("{:?}", bits)));
+                }
+                None
+            }
+            other => Some(("bitfield-bits-differ", format!("bits {:?} -> {} -> {:?}", bits, core::hex(&want), other))),
+        },
+        other => Some(("bitfield-not-decoded", format!("{:?}", other))),
+    }
+}
+
+fn bits_of(n: usize, x: u64) -> Vec<bool> {
+    (0..n).map(|i| x >> i & 1 == 1).collect()
+}
+
+pub fn run(ctx: &Ctx) -> Outcome {
+    let mut msgs: Vec<Msg> = vec![Msg::KeepAlive, Msg::Choke, Msg::Unchoke, Msg::Interested, Msg::NotInterested];
+    for &i in &B {
+        msgs.push(Msg::Have(i));
+    }
+    for &i in &B {
+        for &b in &B {
+            for &l in &B {
+                msgs.push(Msg::Request(i, b, l));
+                msgs.push(Msg::Cancel(i, b, l));
+            }
+        }
+    }
+    let pats = patterns20();
+    for h in &pats {
+        for id in &pats {
+            msgs.push(refwire::handshake(h, id));
+        }
+    }
+    let fixed = msgs.len();
+    for &i in &B {
+        for &b in &B {
+            for &n in &PAYLOADS {
+                msgs.push(Msg::Piece(i, b, payload(n)));
+            }
+        }
+    }
+    let res = core::par_map(&msgs, |_| core::set_quiet_panics(true), |_, _, m| check_msg(m));
+    for (m, r) in msgs.iter().zip(res) {
+        if let Some((class, summary)) = r {
+            ctx.violation(class, summary, json!({"kind": "msg", "hex": core::hex(&refwire::encode(m)[..refwire::encode(m).len().min(64)]), "msg": m.short(), "full_len": refwire::encode(m).len()}));
+        }
+    }
+
+    // all bit vectors up to max_bits, walking patterns above
+    let max_bits = ctx.tier.pick(17usize, 21usize);
+    let mut bit_cases: u64 = 0;
+    for n in 0..=max_bits {
+        let total = 1u64 << n;
+        let parts = core::par_ranges(total, if total < 4096 { 1 } else { core::workers() * 4 }, |_| core::set_quiet_panics(true), |_, a, b| {
+            for x in a..b {
+                let bits = bits_of(n, x);
+                if let Some((class, summary)) = check_bits(&bits) {
+                    ctx.violation(class, summary, json!({"kind": "bits", "bits": bits}));
+                }
+            }
+            b - a
+        });
+        bit_cases += parts.iter().sum::<u64>();
+    }
+    let mut pattern_cases = 0u64;
+    for n in (max_bits + 1)..=64 {
+        let mut vecs: Vec<Vec<bool>> = vec![];
+        for i in 0..n {
+            vecs.push((0..n).map(|j| j == i).collect());
+            vecs.push((0..n).map(|j| j != i).collect());
+        }
+        vecs.push((0..n).map(|j| j % 2 == 0).collect());
+        vecs.push((0..n).map(|j| j % 2 == 1).collect());
+        for bits in vecs {
+            pattern_cases += 1;
+            if let Some((class, summary)) = check_bits(&bits) {
+                ctx.violation(class, summary, json!({"kind": "bits", "bits": bits}));
+            }
+        }
+    }
+
+    let mut o = Outcome::new("exploration");
+    let evaluations = msgs.len() as u64 + bit_cases + pattern_cases;
+    o.set("evaluations", json!(evaluations));
+    o.set("distinct_nontrivial", json!(evaluations - 5));
+    o.set("rule", json!(format!("field alphabet B={:?}; Have: B; Request/Cancel: B^3; Handshake: 6x6 hash/id patterns (all-0, all-FF, all-'T', all-19, 0..19, 'T' at the id position); Piece: B^2 x payload lengths {:?} (65528 exceeds the frame limit and must be refused); Bitfield: every bit vector of 0..={} bits, walking-one/zero and alternating vectors for {}..=64 bits. Each case: emitted bytes == reference bytes; Frame::parse of the bytes alone and followed by 3 junk suffixes gives the same fields, consumes exactly the message, re-serialises identically. All cases are distinct; the 5 field-less messages are the trivial ones.", B, PAYLOADS, max_bits, max_bits + 1)));
+    o.set("fixed_and_have_request_cancel_handshake", json!(fixed));
+    o.set("piece_cases", json!(msgs.len() - fixed));
+    o.set("bitvector_cases", json!(bit_cases));
+    o.set("bitvector_pattern_cases", json!(pattern_cases));
+    let picks = ctx.seeded_pick(msgs.len(), 5);
+    o.set("samples", Value::Array(picks.iter().map(|i| json!({"msg": msgs[*i].short(), "bytes": core::hex(&refwire::encode(&msgs[*i])[..refwire::encode(&msgs[*i]).len().min(24)])})).collect()));
+    o.set("exhaustive", json!(true));
+    o.assume("reference codec refwire.rs written from BEP3; nothing is claimed for field values outside B or payload lengths outside the stated list");
+    o
+}
+
+pub fn replay(_ctx: &Ctx, r: &Value) -> i32 {
+    let res = if r["kind"] == "bits" {
+        let bits: Vec<bool> = r["bits"].as_array().unwrap().iter().map(|b| b.as_bool().unwrap()).collect();
+        println!("bits {:?} reference bytes {}", bits, core::hex(&refwire::bitfield_bytes(&bits)));
+        check_bits(&bits)
+    } else {
+        let hexs = r["hex"].as_str().unwrap_or("");
+        let bytes: Vec<u8> = (0..hexs.len() / 2).map(|i| u8::from_str_radix(&hexs[2 * i..2 * i + 2], 16).unwrap()).collect();
+        match refwire::next(&bytes) {
+            refwire::Step::Msg(m, _) => {
+                println!("message {}", m.short());
+                check_msg(&m)
+            }
+            other => {
+                println!("replay holds a truncated message ({:?}); re-run the check", other);
+                return 2;
+            }
+        }
+    };
+    match res {
+        Some((class, s)) => {
+            println!("VIOLATION property=C07 replay=<this file>\n  class={} {}", class, s);
+            1
+        }
+        None => {
+            println!("holds for this case");
+            0
+        }
+    }
+}
